@@ -41,20 +41,22 @@ structure Fs where
   dic : FileState
   deriving DecidableEq, Repr
 
+/-- operations that open a file for writing: `File::create` (truncating) or `OpenOptions` without `truncate` -/
+def isCreate (o : SaveOp) : Bool := o = .createInPlace || o = .createTmp || o = .openInPlace || o = .openTmp
+
 /-- The save writes frequency.bin first, then user.dic: operations up to and including the first
 `rename` (or, without renames, the first `write`) belong to the first file. -/
 def splitOps (ops : List SaveOp) : List SaveOp × List SaveOp :=
   let body := ops.filter (· ≠ .mkdir)
-  let creates := body.filter fun o => o = .createInPlace ∨ o = .createTmp
+  let creates := body.filter fun o => isCreate o
   if creates.length ≠ 2 then (body, []) else
   -- split before the second create
   let rec go (seen : Nat) : List SaveOp → List SaveOp × List SaveOp
     | [] => ([], [])
     | o :: t =>
-      let isCreate := o = .createInPlace ∨ o = .createTmp
-      if isCreate ∧ seen = 1 then ([], o :: t)
+      if isCreate o ∧ seen = 1 then ([], o :: t)
       else
-        let (a, b) := go (if isCreate then seen + 1 else seen) t
+        let (a, b) := go (if isCreate o then seen + 1 else seen) t
         (o :: a, b)
   go 0 body
 
@@ -62,13 +64,22 @@ def splitOps (ops : List SaveOp) : List SaveOp × List SaveOp :=
 def applyOp (f : FileState) : SaveOp → FileState
   | .createInPlace => { f with file := .empty }
   | .createTmp => { f with tmp := .empty }
-  | .write => if f.tmp = .empty ∨ f.tmp = .torn then { f with tmp := .new } else { f with file := .new }
+  -- opened without truncation: an existing file keeps its bytes
+  | .openInPlace => if f.file = .absent then { f with file := .empty } else f
+  | .openTmp => if f.tmp = .absent then { f with tmp := .empty } else f
+  | .write =>
+    if f.tmp = .empty then { f with tmp := .new }
+    -- a file that was NOT truncated before being written keeps whatever was there beyond the new bytes: the
+    -- result is complete only if nothing was there (pessimistically: it is torn)
+    else if f.tmp ≠ .absent then { f with tmp := .torn }
+    else if f.file = .empty then { f with file := .new }
+    else { f with file := .torn }
   | .rename => { file := f.tmp, tmp := .absent }
   | _ => f
 
 /-- Effect of an operation cut short by the death of the process (only a write has an inside). -/
 def applyPartial (f : FileState) : SaveOp → FileState
-  | .write => if f.tmp = .empty ∨ f.tmp = .torn then { f with tmp := .torn } else { f with file := .torn }
+  | .write => if f.tmp = .absent then { f with file := .torn } else { f with tmp := .torn }
   | _ => f
 
 /-- All states one file can be left in when the process dies at any instant of its operation list. -/
@@ -78,12 +89,20 @@ def crashStatesOf (f : FileState) : List SaveOp → List FileState
 
 def finalOf (f : FileState) (ops : List SaveOp) : FileState := ops.foldl applyOp f
 
-/-- All file-system states after a crash at any instant of the save. -/
-def crashStates (ops : List SaveOp) : List Fs :=
+/-- All file-system states after a crash at any instant of a save that starts in `start`. -/
+def crashStatesFrom (start : Fs) (ops : List SaveOp) : List Fs :=
   let (a, b) := splitOps ops
-  let start : FileState := ⟨.old, .absent⟩
-  (crashStatesOf start a).map (fun f => ⟨f, start⟩) ++
-  (crashStatesOf start b).map (fun d => ⟨finalOf start a, d⟩)
+  (crashStatesOf start.freq a).map (fun f => ⟨f, start.dic⟩) ++
+  (crashStatesOf start.dic b).map (fun d => ⟨finalOf start.freq a, d⟩)
+
+/-- The state a completed save leaves. -/
+def completeFrom (start : Fs) (ops : List SaveOp) : Fs :=
+  let (a, b) := splitOps ops
+  ⟨finalOf start.freq a, finalOf start.dic b⟩
+
+/-- All file-system states after a crash at any instant of the first save (previous versions present,
+no temporary files). -/
+def crashStates (ops : List SaveOp) : List Fs := crashStatesFrom ⟨⟨.old, .absent⟩, ⟨.old, .absent⟩⟩ ops
 
 /-- A data file restores iff it is complete (the previous or the new version). -/
 def restorable (c : Content) : Bool := c = .old || c = .new
